@@ -1357,6 +1357,14 @@ static void fini_rtx (hawk_rtx_t* rtx, int fini_globals)
 	hawk_rtx_freevalchunk (rtx, rtx->vmgr.rchunk);
 	rtx->vmgr.ichunk = HAWK_NULL;
 	rtx->vmgr.rchunk = HAWK_NULL;
+
+	if (rtx->vdefer.ptr)
+	{
+		HAWK_ASSERT (rtx->vdefer.size == 0);
+		hawk_rtx_freemem (rtx, rtx->vdefer.ptr);
+		rtx->vdefer.ptr = HAWK_NULL;
+		rtx->vdefer.capa = 0;
+	}
 }
 
 static int update_fnr (hawk_rtx_t* rtx, hawk_int_t fnr, hawk_int_t nr)
